@@ -364,6 +364,28 @@ def check_aw_lock(cases):
             got = dict(first=first[k], second=dict(zu=int(aw.zu[k]), zl=int(aw.zl[k]), zi=int(aw.zi[k]), x=_num(x.v[k]), e=_num(x.e[k])))
             if got != c["exp"]:
                 bad.append(dict(cls="AntiWindup.niter_lock", case={q: c[q] for q in c if q != "exp"}, expected=c["exp"], got=got))
+        # the list of pegged states handed to the integrator after the second evaluation names exactly the states pegged now
+        pegged = set()
+        for addr, _, _ in aw.x_set:
+            pegged.update(int(a) for a in np.ravel(addr))
+        want = {k for k in range(n) if int(aw.zi[k]) == 0}
+        if pegged != want:
+            bad.append(dict(cls="AntiWindup.x_set", case=dict(niter=niter, after="second evaluation of one device set"),
+                            expected=sorted(want)[:10], got=sorted(pegged)[:10]))
+        # all devices pegged at one limit, then all released (state back inside, derivative zero): nothing is held any more
+        for side, xv, ev_ in (("upper", 3.0, 1.0), ("lower", -2.0, -1.0)):
+            x.v[:] = xv
+            x.e[:] = ev_
+            aw.check_eq(niter=0)
+            x.v[:] = 0.0
+            x.e[:] = 0.0
+            aw.check_eq(niter=0)
+            left = set()
+            for addr, _, _ in aw.x_set:
+                left.update(int(a) for a in np.ravel(addr))
+            if left or not np.all(aw.zi == 1):
+                bad.append(dict(cls="AntiWindup.x_set", case=dict(niter=niter, after="all devices pegged at the %s limit, then released" % side),
+                                expected=[], got=sorted(left)[:10]))
     return bad
 
 
